@@ -637,7 +637,9 @@ class MoveModule:
             )
 
             # Case 3: Names are imported from the moving module.
-            context = importutils.importinfo.ImportContext(self.project, None)
+            context = importutils.importinfo.ImportContext(
+                self.project, module_imports._current_folder()
+            )
             if (
                 not import_stmt.import_info.is_empty()
                 and import_stmt.import_info.get_imported_resource(context)
@@ -656,7 +658,9 @@ class MoveModule:
         self, dest, import_stmt, module_imports, parent_module
     ):
         changed = False
-        context = importutils.importinfo.ImportContext(self.project, None)
+        context = importutils.importinfo.ImportContext(
+            self.project, module_imports._current_folder()
+        )
         if import_stmt.import_info.get_imported_resource(context) == parent_module:
             imports = import_stmt.import_info.names_and_aliases
             new_imports = []
